@@ -55,7 +55,8 @@ class dict_store(base_store):
         '''
         if backend is not None:
             try:
-                self.store = pickle.load(open(backend))
+                with open(backend, 'rb') as ifile:
+                    self.store = pickle.load(ifile)
             except IOError:
                 self.store = {}
         else:
@@ -101,6 +102,8 @@ class dict_store(base_store):
         if self.can_load(name):
             self.counts[_gen_key('true-del',name)] += 1
             del self.store[_resultname(name)]
+            return True
+        return False
 
 
     def cleanup(self, active, keeplocks=False):
@@ -177,7 +180,8 @@ class dict_store(base_store):
 
     def close(self):
         if self.backend is not None:
-            pickle.dump(self.store, open(self.backend, 'w'))
+            with open(self.backend, 'wb') as ofile:
+                pickle.dump(self.store, ofile)
             self.backend = None
     __del__ = close
 
